@@ -2,6 +2,8 @@ use crate::util::{Ctx, Report};
 
 pub mod c01;
 pub mod c02;
+pub mod c03;
+pub mod c04;
 pub mod c05;
 pub mod c07;
 pub mod c08;
@@ -20,6 +22,8 @@ pub fn dispatch(ctx: &Ctx, rep: &mut Report) -> bool {
     match ctx.prop.as_str() {
         "C01" => c01::run(ctx, rep),
         "C02" => c02::run(ctx, rep),
+        "C03" => c03::run(ctx, rep),
+        "C04" => c04::run(ctx, rep),
         "C05" => c05::run(ctx, rep),
         "C07" => c07::run(ctx, rep),
         "C08" => c08::run(ctx, rep),
